@@ -267,4 +267,21 @@ CHECKS = {
              "numpy headers installed into .deps by setup_cmd (skipped if absent). std::vector with F_CFI is a recorded "
              "known finding (excluded, probed).",
     ),
+    "C04": dict(
+        level="translation_validation",
+        technique="translation validation per generated program: clang JSON AST view of the C side vs an independent "
+                  "Fortran interface reader, over Hypothesis-generated libraries and the corpus; layouts and constant "
+                  "tables compared through compiled C and Fortran programs",
+        design_ref="DESIGN.md section 4, C04",
+        text="For every generated wrapper set (generated libraries under language c/c++ and F_CFI off/on; corpus entries "
+             "with their real headers) each bind(C) interface body is matched with the C function of its binding label: the "
+             "function must be defined (generated code, user header or user source), have the same number of parameters and "
+             "position-wise interoperable classes (scalar kind and size, value vs reference, character, void*/T**, struct "
+             "pointer of equal layout, CFI descriptor, function pointer) and an interoperable result. bind(C) derived types "
+             "are compared with their C structs via sizeof/offsetof vs c_sizeof/c_loc, and the SH_TYPE_* tables are "
+             "evaluated by gcc and gfortran and compared name by name.",
+        note="Trusted base: clang 14 AST, gcc/gfortran 12 on x86-64, the interoperability rule table in vf/iface.py; "
+             "gfortran -fc-prototypes cross-checks the reader's arity (disagreement = harness error). Interfaces inside "
+             "preprocessor conditionals are only checked when the C side is compiled too.",
+    ),
 }
